@@ -1,4 +1,5 @@
 import PyaModel.Proofs.C09
+import PyaModel.Generated.ScopeSet
 /-!
 # Props/C09 — name binding: reaching definitions and (possibly) undefined names
 
@@ -72,6 +73,65 @@ report is sound and contains nothing but what reaches the use, the diagnostic is
 whenever the reported set is exactly unbound, `undefined_name` is what `resolve_name` emits. -/
 theorem c09_undefined_of_only_unbound (ds : List Node) (h : ∀ n ∈ ds, n = none) : diagOf ds = .undefined :=
   diag_undefined ds h
+
+/-! ### Scope kinds
+
+The CFG semantics does not depend on how the name is bound; only the entry state does (`entryOf`): unbound for a local,
+the declared literal for a parameter, the outside binding for a `global` / `nonlocal` name (liberal reading: or any value
+the function itself assigns, the function may have been called before). `reportedK` is the model of what pyanalyze
+reports for each kind. The exception classes are the same for every kind. -/
+
+/-- **Soundness, every scope kind, partial.** Same hypotheses as `c09_reported_sound_partial`; `x` bound as a local, as
+a parameter, or declared `global` / `nonlocal` (`k`): every definition that reaches use `u` on a strict path from the
+entry state of that kind is reported. -/
+theorem c09_reported_sound_kinds_partial (k : ScopeKind) (p : Block) (x u d : Nat)
+    (hfrag : p.noTryWith = true) (hdead : p.jumpsLast = true) (hfor : p.plainFor = true)
+    (hR1 : D09_loopElse p = false) (hR2 : D09_secondVisitSeed p = false) (hids : p.useIds.Nodup)
+    (h : some d ∈ reachingK false k p x u) : some d ∈ reportedK k p x u := by
+  have hs := simpleB_of p hfrag hdead hfor hR1 hR2
+  cases k with
+  | loc => exact sound_defs p hs x u d h
+  | param d0 =>
+    have h' := (reaching_param p x u d0 (some d)).1 h
+    have hs' : (Block.cons (.assign x d0) p).simple = true := by
+      simp [Block.simple, Stmt.simple, Stmt.isJump, hs]
+    exact sound_defs _ hs' x u d h'
+  | glob d0 => exact sound_ref p hs hids x u d0 d h
+  | nonloc d0 => exact sound_ref p hs hids x u d0 d h
+
+/-- **Unbound use reported, locals and parameters, partial.** (A `global` / `nonlocal` name is never unbound on entry
+here: the outside scope binds it.) A parameter is never reported unbound unless the unbound state reaches — it
+cannot, so this is the local theorem plus "nothing unbound reaches a use of a parameter" folded into one statement:
+if unbound reaches on a strict path it is reported. -/
+theorem c09_unbound_sound_kinds_partial (k : ScopeKind) (p : Block) (x u : Nat)
+    (hk : k = .loc ∨ ∃ d0, k = .param d0)
+    (hfrag : p.noTryWith = true) (hdead : p.jumpsLast = true) (hfor : p.plainFor = true)
+    (hR1 : D09_loopElse p = false) (hR2 : D09_secondVisitSeed p = false) (hids : p.useIds.Nodup)
+    (h : none ∈ reachingK false k p x u) : none ∈ reportedK k p x u := by
+  have hs := simpleB_of p hfrag hdead hfor hR1 hR2
+  rcases hk with hk | ⟨d0, hk⟩
+  · subst hk; exact sound_unbound p hs hids x u h
+  · subst hk
+    have h' := (reaching_param p x u d0 none).1 h
+    have hs' : (Block.cons (.assign x d0) p).simple = true := by
+      simp [Block.simple, Stmt.simple, Stmt.isJump, hs]
+    have hids' : (Block.cons (.assign x d0) p).useIds.Nodup := by
+      simpa [Block.useIds, Stmt.useIds] using hids
+    exact sound_unbound _ hs' hids' x u h'
+
+/-- **The bookkeeping of `FunctionScope.set` is the one the model assumes — checked against the live source.**
+`Generated/ScopeSet.lean` lists the statements of `FunctionScope.set` by the condition they run under. The model
+(and `reportedK`) relies on: the flow-sensitive bookkeeping — `definition_node_to_value`,
+`name_to_current_definition_nodes`, `name_to_all_definition_nodes` (which `suppressing_subscope` reads) — is done for
+every assignment whatever backs the name; forwarding to the owning scope is what is specific to `global` /
+`nonlocal` names; nothing is specific to names that are not. -/
+theorem scope_set_bookkeeping_registered :
+    "self.definition_node_to_value[node] = value" ∈ setAlways ∧
+    "self.name_to_current_definition_nodes[varname] = [node]" ∈ setAlways ∧
+    "self.name_to_all_definition_nodes[varname].add(node)" ∈ setAlways ∧
+    "ref_var.scope.set(ref_var.name, value, node, state)" ∈ setIfRef ∧
+    "self.referencing_value_vars[varname] = value" ∈ setDecl ∧
+    setIfNotRef = [] ∧ setOther = [] := by decide
 
 /-- **C09, precision half, partial (S1: loop-free fragment).** For every skeleton built from assignments, uses,
 calls, `if`/`else`, `return`, `raise` (`loopFree`; any size and depth) without dead code (`noDead`: nothing follows a
@@ -192,6 +252,13 @@ example : exBrk.noTryWith = true ∧ exBrk.jumpsLast = true ∧ exBrk.plainFor =
     some 1 ∈ reaching false exBrk 0 1 ∧ none ∈ reaching false exBrk 0 1 := by decide
 example : some 2 ∈ reaching false exFrag 0 1 ∧ some 2 ∈ reported exFrag 0 1 := by decide
 example : diagOf (reported exFrag 0 2) = .ok := by decide
+/-- scope kinds, on `use(x); if c: x = 1` / `use(x)`: a parameter and a `global` name bound to 0 outside -/
+def exKinds : Block := .ofList [.use 0 1, .ite (.ofList [.assign 0 1]) .nil, .use 0 2]
+example : some 0 ∈ reachingK false (.param 0) exKinds 0 2 ∧ some 1 ∈ reachingK false (.param 0) exKinds 0 2 ∧
+    some 0 ∈ reportedK (.param 0) exKinds 0 2 ∧ none ∉ reportedK (.param 0) exKinds 0 2 := by decide
+example : some 0 ∈ reachingK false (.glob 0) exKinds 0 1 ∧ some 0 ∈ reportedK (.glob 0) exKinds 0 1 ∧
+    some 1 ∈ reportedK (.glob 0) exKinds 0 1 ∧ some 1 ∈ reachingK true (.glob 0) exKinds 0 1 ∧
+    none ∉ reportedK (.nonloc 0) exKinds 0 1 := by decide
 /-- precision hypotheses: `if c: x = 1; return` / `else: if c: x = 2` ; `use(x)` -/
 def exS1 : Block :=
   .ofList [.ite (.ofList [.assign 0 1, .ret]) (.ofList [.ite (.ofList [.assign 0 2]) .nil]), .use 0 1]
